@@ -568,6 +568,44 @@ func (c19) Run(ctx *Ctx, ci interface{}) (o Outcome) {
 				return
 			}
 			produced = &poolObj{what: fmt.Sprintf("clone of #%d", ti), bag: cl, owns: true, parent: ti}
+			if op.Flag && n >= 2 && L >= 1 {
+				// the same for an alignment in which two rows carry one name (an in-place rename; outside the pool):
+				// whatever names its clones give those rows, every row of a clone is storage of its own
+				if d, err := al.Clone(); err == nil {
+					from, _ := d.GetSequenceNameById(op.I % n)
+					to, _ := d.GetSequenceNameById(op.J % n)
+					if from != to {
+						d.Rename(map[string]string{from: to})
+						for _, mk := range []string{"Clone", "CloneSeqBag"} {
+							var c2 align.SeqBag
+							if mk == "Clone" {
+								x, err := d.Clone()
+								if err != nil {
+									continue
+								}
+								c2 = x
+							} else {
+								x, err := d.CloneSeqBag()
+								if err != nil {
+									continue
+								}
+								c2 = x
+							}
+							before := snapshotAlign(d)
+							for i := 0; i < c2.NbSequences(); i++ {
+								if q, ok := c2.GetSequenceCharById(i); ok && len(q) > 0 {
+									q[0] = '#'
+								}
+							}
+							if after := snapshotAlign(d); after != before {
+								fail("copy-shares-storage:clone", "an alignment in which two rows have one name: writing into the rows of its %s changes it:\nbefore:\n%s\nafter:\n%s", mk, before, after)
+								return
+							}
+						}
+						o.Add("probe_clone_with_two_rows_of_one_name", 1)
+					}
+				}
+			}
 		case "clone-seqbag":
 			cl, err := t.bag.CloneSeqBag()
 			if err != nil {
